@@ -11,13 +11,14 @@ import (
 	"verifharness/internal/vh"
 )
 
-// TestDebugOne runs one scenario (C12_IDX, C12_VT=1) and prints its logs.
+// TestDebugOne runs one scenario (C12_IDX, C12_VT=1, C12_VTMULTI=1) and prints its logs.
 func TestDebugOne(t *testing.T) {
 	if os.Getenv("C12_IDX") == "" {
 		t.Skip("set C12_IDX")
 	}
 	idx, _ := strconv.Atoi(os.Getenv("C12_IDX"))
 	vt := os.Getenv("C12_VT") == "1"
+	vtMulti = os.Getenv("C12_VTMULTI") == "1"
 	os.Setenv("VERIF_NO_EVIDENCE", "1")
 	r := vh.Start(t, "C12")
 	stream, off := "c12-rt", 0
